@@ -21,15 +21,15 @@ type clause struct {
 
 // FuncContract is the contract of one function (or closure, type, interface method).
 type FuncContract struct {
-	pkg      string // package path the block is declared in
-	key      string // "Recv.Name" or "Name"
-	anchor   string // for closures: source anchor inside the enclosing function
-	kind     string // func | closure | type | iface
-	props    []string
-	requires []clause
-	ensures  []clause
-	invs     map[int][]clause
-	assigns  []clause // nil: no assigns clause (everything may be written); empty+assignsNone: nothing
+	pkg         string // package path the block is declared in
+	key         string // "Recv.Name" or "Name"
+	anchor      string // for closures: source anchor inside the enclosing function
+	kind        string // func | closure | type | iface
+	props       []string
+	requires    []clause
+	ensures     []clause
+	invs        map[int][]clause
+	assigns     []clause // nil: no assigns clause (everything may be written); empty+assignsNone: nothing
 	assignsNone bool
 	decreases   []clause
 	panicsNever bool
@@ -40,6 +40,12 @@ type FuncContract struct {
 	pos         string
 	used        bool
 	opts        map[string]string
+	asserts     []midAssert
+}
+
+type midAssert struct {
+	anchor string
+	cl     clause
 }
 
 func (c *FuncContract) assignsNothing() bool { return c != nil && c.assignsNone }
@@ -48,7 +54,7 @@ func (c *FuncContract) assignsNothing() bool { return c != nil && c.assignsNone 
 type GhostFunc struct {
 	name   string
 	params []ghostParam
-	result string // Go type text
+	result string   // Go type text
 	body   ast.Expr // predicate definitions: expanded inline
 	pkg    string
 }
@@ -65,10 +71,10 @@ type Lemma struct {
 }
 
 type ContractSet struct {
-	funcs  map[string]*FuncContract   // pkgpath + "::" + key [+ "@" + anchor]
-	types  map[string]*FuncContract   // pkgpath::TypeName
-	ifaces map[string]*FuncContract   // pkgpath::Iface.Method
-	ghosts map[string]*GhostFunc      // name (global namespace)
+	funcs  map[string]*FuncContract // pkgpath + "::" + key [+ "@" + anchor]
+	types  map[string]*FuncContract // pkgpath::TypeName
+	ifaces map[string]*FuncContract // pkgpath::Iface.Method
+	ghosts map[string]*GhostFunc    // name (global namespace)
 	lemmas []*Lemma
 	order  []*FuncContract
 	errors []string
@@ -199,6 +205,34 @@ func (cs *ContractSet) parseFile(pkgPath, filename string, lines []string, lineN
 			if cur != nil && strings.TrimSpace(rest) == "never" {
 				cur.panicsNever = true
 			}
+		case "assert":
+			// assert[label] "<anchor>" E
+			if cur == nil {
+				cs.errors = append(cs.errors, where+": assert outside a contract block")
+				continue
+			}
+			rest = strings.TrimSpace(rest)
+			label := ""
+			if strings.HasPrefix(rest, "[") {
+				j := strings.Index(rest, "]")
+				label = strings.TrimSpace(rest[1:j])
+				rest = strings.TrimSpace(rest[j+1:])
+			}
+			m := regexp.MustCompile(`^("(?:[^"\\]|\\.)*")\s+(.*)$`).FindStringSubmatch(rest)
+			if m == nil {
+				cs.errors = append(cs.errors, where+": expected assert \"anchor\" E")
+				continue
+			}
+			anchor, _ := strconv.Unquote(m[1])
+			ex, err := parseSpecExpr(m[2])
+			if err != nil {
+				cs.errors = append(cs.errors, where+": "+err.Error())
+				continue
+			}
+			if label == "" {
+				label = fmt.Sprintf("assert%d", len(cur.asserts)+1)
+			}
+			cur.asserts = append(cur.asserts, midAssert{anchor: anchor, cl: clause{kind: "assert", text: m[2], expr: ex, line: where, label: label}})
 		case "requires", "ensures", "decreases", "assigns", "invariant", "loop":
 			if cur == nil {
 				cs.errors = append(cs.errors, where+": clause outside a contract block: "+l)
